@@ -174,6 +174,20 @@ def r2_canonical_keys(ctx):
         r.check(ok, "canonical@" + key, "non-canonical key ⇒ None", "with left ≥ right the key is still returned", where)
         if ok:
             helpers.add(b.id)
+        # a pool side is a denomination that coins in the state can carry: NewCustom is only the placeholder for "the token this transaction creates" (the
+        # coin tree stores Custom(txhash) instead), yet the empty string parses as the canonical key NewCustom/MEL.  A pool under such a key takes every freshly
+        # minted token — exempt from balancing — for its left-hand asset and pays real MEL for it (D23).  Canonical keys have the smaller side on the left and
+        # NewCustom's byte form is the smallest, so the left side decides.
+        ncs = [(a, cn) for a, cn, abi in _pick_atoms(b, lambda cn: "Denom::NewCustom{}" in cn and "PoolKey::left(%s)" % sig(K) in cn and cn.startswith(("Eq(", "Ne(")))
+               if "Denom::NewCustom{}" in cn and "PoolKey::left(%s)" % sig(K) in cn and cn.startswith(("Eq(", "Ne("))]
+        if not ncs:
+            r.violation("newcustom-side@" + key, "%s returns a pool key without testing its sides against NewCustom: the empty string names the pool NewCustom/MEL, whose left side is credited with any "
+                        "freshly created token (free to mint) and pays out real coins" % b.nname, where)
+        else:
+            a, cn = ncs[0]
+            is_nc = 1 if cn.startswith("Eq(") else 0
+            okn = _selected_unreachable(b, somes, finals, {a: is_nc})
+            r.check(okn, "newcustom-side@" + key, "a key with a NewCustom side ⇒ None", "with left == NewCustom the key is still returned", where)
     # parse sites: callers of the helper(s)
     n = 0
     for hid in helpers:
@@ -394,6 +408,21 @@ def r3_deposits(ctx):
         r.check(live == ["CoinMapping::remove_coin(^state.coins, Transaction::output_coinid($2, 1), UnsealedState::tip_906(^state))"], "remove/" + label,
                 "on %s output 1 of the original transaction is removed" % label, "on %s the coins removed are %s" % (label, live))
     r.check(len(rem) >= 1, "remove/present", "output 1 is removed", "the second deposited coin is never removed (value duplicated)")
+    # inside the legacy window the property does not hold, and the code says so itself: there the coin removed is output 1 of the transaction AFTER its first
+    # output was rewritten (`$2@k` with k > 0: another transaction hash, a coin id that names nothing), so the deposited right-hand coin stays unspent while the
+    # pool is credited with it (D29).  The window is part of the state machine for every Mainnet/Testnet chain below its height, a fresh Testnet included.
+    if legacy["h"] and (legacy["m"] or legacy["t"]):
+        tblw = {a[0]: 1 for a in legacy["h"]}
+        tblw.update({a[0]: 1 for a in legacy["t"]})
+        tblw.update({a[0]: 0 for a in legacy["m"]})
+        f = force(c, tblw)
+        livew = [sigv(e) for bi, e in rem if bi in f.reach]
+        good = "CoinMapping::remove_coin(^state.coins, Transaction::output_coinid($2, 1), UnsealedState::tip_906(^state))"
+        if livew and good not in livew:
+            r.violation("legacy/right-coin-kept", "on Testnet (and Mainnet) below height 978392 a deposit removes %s — the id computed after output 0 was rewritten, which names no coin: "
+                        "the right-hand coin is credited to the pool and stays unspent (every deposit there duplicates its right-hand side)" % livew[0][:120])
+        elif livew:
+            r.ok("legacy/right-coin-kept", "inside the legacy window the right-hand coin is removed as well")
 
 
 def r3_withdrawals(ctx):
